@@ -90,6 +90,11 @@ def report(pid, viols, known, spec_name, tier):
             unknown.append(v)
     for kid, (k, v) in sorted(seen_known.items()):
         print("KNOWN-FINDING: property=%s %s [%s]" % (k["property"], k["what"], kid))
+    by_clause = {}
+    for v in unknown:
+        by_clause[v["clause"]] = by_clause.get(v["clause"], 0) + 1
+    if by_clause:
+        print("  unlisted violations by clause: %s" % json.dumps(by_clause, sort_keys=True))
     # one replay per distinct (property, clause, signature); shortest history first
     unknown.sort(key=lambda v: (len(v["history"] or []), json.dumps(v["history"], default=repr)))
     emitted = set()
